@@ -426,6 +426,62 @@ def sigma_from(ref, gi, frac):
     return float(u[gi] + frac * (u[gi + 1] - u[gi]))
 
 
+TARGETS = ["gap", "gap", "zero_f", "zero_f", "zero_i", "int", "near", "neg"]
+
+
+def s_target(draw):
+    return {"target": draw(st.sampled_from(TARGETS)), "tint": draw(st.sampled_from([-3, -2, -1, 1, 2, 3, 5]))}
+
+
+def target_from(case, ref, d, dmin):
+    """The target sigma of a case, as a pure function of (case, reference spectrum).  Forms: inside a spectral gap /
+    outside the spectrum ('gap'), exactly 0.0 ('zero_f'), the int 0 ('zero_i'), a non-zero int ('int'), next to (4-8 % of
+    the local gap away from) an eigenvalue ('near'), strictly negative ('neg').  The generated spectra straddle zero and
+    keep zero >= 0.1 away from every eigenvalue (separated kinds); `dmin` is the distance from the spectrum that an
+    inverting (shift-invert) backend needs - the value is moved, deterministically, until it is respected."""
+    ref = np.sort(np.asarray(ref).real)
+    form = case.get("target", "gap")
+    gi = case["gap"] % (d + 1) - 1
+    frac = case["frac"]
+
+    def clear(x):
+        return float(np.min(np.abs(ref - x))) >= dmin
+
+    if form in ("zero_f", "zero_i"):
+        sig = 0.0 if form == "zero_f" else 0
+        if clear(sig):
+            return sig
+        form = "gap"
+    if form == "int":
+        t = int(case.get("tint", 1))
+        for c in (t, 0, t + 1, t - 1, t + 2, t - 2):
+            if clear(c):
+                return int(c)
+        form = "gap"
+    if form == "near":
+        u = np.unique(np.round(ref, 9))
+        i = gi % u.size
+        gaps = [abs(u[j] - u[i]) for j in (i - 1, i + 1) if 0 <= j < u.size]
+        g = min(gaps) if gaps else 1.0
+        sig = float(u[i] + (0.04 + 0.04 * frac) * min(g, 1.0) * (1 if gi % 2 else -1))
+        if clear(sig):
+            return sig
+        form = "gap"
+    sig = sigma_from(ref, gi, frac)
+    if form == "neg" and sig > 0:
+        sig = -sig
+    n = 0
+    while not clear(sig) and n < 50:
+        sig += 1.7 * dmin + 1e-3
+        n += 1
+    return float(sig)
+
+
+def target_cls(case, sigma):
+    return ["target=" + case.get("target", "gap"), "sigma" + ("==0" if sigma == 0 else "<0" if sigma < 0 else ">0"),
+            "sigma:" + type(sigma).__name__]
+
+
 # ---------------------------------------------------------------------------
 # 1. full Hermitian decomposition (k < 0: dense numpy path)
 # ---------------------------------------------------------------------------
@@ -510,14 +566,14 @@ def run_eigh_full(case):
 # 2-5. partial Hermitian eigenproblems per backend
 # ---------------------------------------------------------------------------
 
-WHICH_H = ["SA", "LA", "LM", "SM", "TR", "sigma", None]
+WHICH_H = ["SA", "LA", "LM", "SM", "TR", "sigma", "sigma", None]
 
 
 def _partial_common(draw, which_pool, reps, fns=("eigh", "eigh", "eigvalsh", "eigvecsh", "eigensystem_partial")):
     return {"which": draw(st.sampled_from(which_pool)), "rep": draw(st.sampled_from(reps)),
             "fn": draw(st.sampled_from(fns)), "sort": draw(st.sampled_from([True, True, None, False])),
             "gap": draw(st.integers(-1, 40)), "frac": draw(st.sampled_from([0.3, 0.5, 0.62, 0.8])),
-            "v0seed": draw(A_.seeds)}
+            "v0seed": draw(A_.seeds), **s_target(draw)}
 
 
 @st.composite
@@ -531,7 +587,7 @@ def s_eigh_numpy(draw, tier):
 @st.composite
 def s_eigh_scipy(draw, tier):
     mat = draw(s_herm_matrix(8, 40 if tier == "quick" else 72, HKINDS_ITER))
-    c = _partial_common(draw, WHICH_H, ["dense", "qarray", "csr", "csc", "coo", "bsr", "linop", "aslinop", "lazy", "lazy_sparse"])
+    c = _partial_common(draw, WHICH_H + ["LMsigma"], ["dense", "qarray", "csr", "csc", "coo", "bsr", "linop", "aslinop", "lazy", "lazy_sparse"])
     c.update(mat=mat, backend="scipy", k=draw(st.integers(1, min(6, mat["d"] - 3))))
     return c
 
@@ -569,14 +625,27 @@ def run_eigh_partial(case):
     ref = np.linalg.eigvalsh(H.astype(np.complex128))
     scale = max(float(np.max(np.abs(ref))), 1e-300)
     which = case["which"]
+    targeted = which in ("TR", "sigma", "LMsigma")
+    rep = case["rep"]
+    A = to_rep(H, rep)
+    backend = case["backend"]
+    # labelling only (never used by the oracle); only `sigma is not None` enters the documented auto-selection rule
+    bres = resolved_backend(A if not rep.startswith("lazy") else H, max(k, 1), 0.0 if targeted else None, None, backend)
+    iterative = bres in ("SCIPY", "LOBPCG")
     sigma = None
     kw = {}
-    if which in ("TR", "sigma"):
-        sigma = sigma_from(ref, case["gap"] % (d + 1) - 1, case["frac"])
+    if targeted:
+        # an inverting backend needs the target off the spectrum; the dense backend takes any target
+        sigma = target_from(case, ref, d, 0.03 if iterative else 0.0)
         kw["sigma"] = sigma
         rule = "TR"
         if which == "TR":
             kw["which"] = "TR"
+        elif which == "LMsigma":
+            # scipy eigsh (referenced by the docstring): with sigma, which refers to 1/(lambda-sigma) -> 'LM' == nearest sigma
+            if bres != "SCIPY":
+                raise Reject("sigma with which='LM' is only defined (by scipy) for the shift-invert backend")
+            kw["which"] = "LM"
     elif which is None:
         rule = "SA"
     else:
@@ -584,14 +653,8 @@ def run_eigh_partial(case):
         kw["which"] = which
     if case["sort"] is not None:
         kw["sort"] = case["sort"]
-    rep = case["rep"]
-    A = to_rep(H, rep)
-    backend = case["backend"]
     if backend is not None:
         kw["backend"] = backend
-    # labelling only (never used by the oracle)
-    bres = resolved_backend(A if not rep.startswith("lazy") else H, max(k, 1), sigma, None, backend)
-    iterative = bres in ("SCIPY", "LOBPCG")
     if iterative:
         if k > d - 2 or k < 1:
             raise Reject("iterative solver needs 1 <= k <= d-2")
@@ -666,7 +729,8 @@ def run_eigh_partial(case):
     return {"nt": bool(kk >= 1 and (deg or m["kind"].startswith("block") or near_thr or rule != "SA")),
             "cls": ["res=" + bres, "rule=" + rule + ("(sigma only)" if which == "sigma" else ""), "rep=" + rep, "fn=" + fn,
                     "kind=" + m["kind"], "cplx" if cplx else "real", "sort=" + str(case["sort"])]
-                   + (["degenerate"] if deg else []) + (["SM-weak"] if weak_sm else []) + ([f"auto:{'below' if d * d / max(k, 1) < thr else 'above'}"] if near_thr else [])
+                   + (["degenerate"] if deg else []) + (["SM-weak"] if weak_sm else []) + (target_cls(case, sigma) if sigma is not None else [])
+                   + (["which=LM+sigma"] if which == "LMsigma" else []) + ([f"auto:{'below' if d * d / max(k, 1) < thr else 'above'}"] if near_thr else [])
                    + (["v0=" + case["v0form"]] if "v0form" in case else []),
             "err": err}
 
@@ -679,12 +743,12 @@ def run_eigh_partial(case):
 def s_eigh_generalized(draw, tier):
     backend = draw(st.sampled_from(["numpy", "scipy", "lobpcg", None]))
     mat = draw(s_herm_matrix(10, 36 if tier == "quick" else 60, ("spectrum", "gauss", "psd_sep", "block_sep", "degenerate")))
-    which = draw(st.sampled_from(["SA", "LA", None] if backend == "lobpcg" else ["SA", "LA", "LM", None, "TR", "sigma"]))
+    which = draw(st.sampled_from(["SA", "LA", None] if backend == "lobpcg" else ["SA", "LA", "LM", None, "TR", "sigma", "sigma"]))
     return {"mat": mat, "backend": backend, "k": draw(st.integers(1, 4)), "which": which,
             "rep": draw(st.sampled_from(["dense", "qarray", "csr", "csc"])),
             "brep": draw(st.sampled_from(["dense", "dense", "qarray", "csr", "csc"])),
             "fn": draw(st.sampled_from(["eigh", "eigh", "eigvalsh"])), "gap": draw(st.integers(-1, 40)),
-            "frac": draw(st.sampled_from([0.3, 0.5, 0.7])), "v0seed": draw(A_.seeds)}
+            "frac": draw(st.sampled_from([0.3, 0.5, 0.7])), "v0seed": draw(A_.seeds), **s_target(draw)}
 
 
 def run_eigh_generalized(case):
@@ -701,8 +765,15 @@ def run_eigh_generalized(case):
     scale = max(float(np.max(np.abs(ref))), 1e-300)
     which = case["which"]
     kw, sigma = {}, None
+    A = to_rep(H, case["rep"])
+    B = to_rep(Bd, case["brep"])
+    backend = case["backend"]
+    if backend is not None:
+        kw["backend"] = backend
+    bres = resolved_backend(A, k, 0.0 if which in ("TR", "sigma") else None, B, backend)
+    iterative = bres in ("SCIPY", "LOBPCG")
     if which in ("TR", "sigma"):
-        sigma = sigma_from(ref, case["gap"] % (d + 1) - 1, case["frac"])
+        sigma = target_from(case, ref, d, 0.01 if iterative else 0.0)
         kw["sigma"] = sigma
         rule = "TR"
         if which == "TR":
@@ -712,13 +783,6 @@ def run_eigh_generalized(case):
     else:
         rule = which
         kw["which"] = which
-    A = to_rep(H, case["rep"])
-    B = to_rep(Bd, case["brep"])
-    backend = case["backend"]
-    if backend is not None:
-        kw["backend"] = backend
-    bres = resolved_backend(A, k, sigma, B, backend)
-    iterative = bres in ("SCIPY", "LOBPCG")
     if iterative and k > d - 2:
         raise Reject("iterative solver needs k <= d-2")
     if bres == "SCIPY" or backend is None:
@@ -749,7 +813,8 @@ def run_eigh_generalized(case):
         # B-orthonormality: v+ B v = 1
         err = max(err, check_pairs(H, Bd, lk.real, np.asarray(vk), tol * 10, **info))
     return {"nt": True, "cls": ["res=" + bres, "rule=" + rule, "rep=" + case["rep"], "brep=" + case["brep"], "kind=" + m["kind"],
-                                "cplx" if cplx else "real"] + (["degenerate"] if deg else []), "err": err}
+                                "cplx" if cplx else "real"] + (["degenerate"] if deg else []) + (target_cls(case, sigma) if sigma is not None else []),
+            "err": err}
 
 
 # ---------------------------------------------------------------------------
@@ -938,7 +1003,7 @@ def run_eig_full(case):
 @st.composite
 def s_eig_partial(draw, tier):
     backend = draw(st.sampled_from(["numpy", "scipy", None]))
-    which = draw(st.sampled_from(["LM", "SM", "LR", "SR", "LI", "SI", "TR", "sigma"]))
+    which = draw(st.sampled_from(["LM", "SM", "LR", "SR", "LI", "SI", "TR", "sigma", "sigma"]))
     kinds = ("similar_real", "triangular_real") if which in ("TR", "sigma") else ("normal", "similar_real", "similar_cplx", "gauss")
     if backend in ("scipy", None) and which == "SM":
         kinds = ("normal", "similar_real", "similar_cplx")
@@ -946,8 +1011,8 @@ def s_eig_partial(draw, tier):
     if backend is None:
         mat["d"] = draw(st.sampled_from([40, 43, 44, 45, 46, 50])) if which not in ("TR", "sigma") else draw(st.sampled_from([30, 99, 100, 101]))
     return {"mat": mat, "backend": backend, "which": which, "k": 1 if backend is None else draw(st.integers(1, 5)),
-            "fn": draw(st.sampled_from(["eig", "eig", "eigvals"])), "rep": draw(st.sampled_from(["dense", "qarray", "csr", "csc", "linop"])),
-            "gap": draw(st.integers(-1, 40)), "frac": draw(st.sampled_from([0.3, 0.62, 0.8])), "v0seed": draw(A_.seeds)}
+            "fn": draw(st.sampled_from(["eig", "eig", "eigvals", "eigensystem_partial"])), "rep": draw(st.sampled_from(["dense", "qarray", "csr", "csc", "linop"])),
+            "gap": draw(st.integers(-1, 40)), "frac": draw(st.sampled_from([0.3, 0.62, 0.8])), "v0seed": draw(A_.seeds), **s_target(draw)}
 
 
 def run_eig_partial(case):
@@ -968,8 +1033,6 @@ def run_eig_partial(case):
         # real spectrum by construction: 'real part nearest sigma' (numpy rule) == 'nearest sigma' (shift-invert)
         if np.max(np.abs(ref.imag)) > 1e-9 * max(fro(M), 1.0):
             raise Reject("target rule only compared on real spectra")
-        sigma = sigma_from(ref.real, case["gap"] % (d + 1) - 1, case["frac"])
-        kw["sigma"] = sigma
         rule = "TR"
         if which == "TR":
             kw["which"] = "TR"
@@ -981,7 +1044,10 @@ def run_eig_partial(case):
     backend = case["backend"]
     if backend is not None:
         kw["backend"] = backend
-    bres = resolved_backend(A, k, sigma, None, backend)
+    bres = resolved_backend(A, k, 0.0 if rule == "TR" else None, None, backend)
+    if rule == "TR":
+        sigma = target_from(case, ref.real, d, 0.03 if bres == "SCIPY" else 0.0)
+        kw["sigma"] = sigma
     if bres == "NUMPY" and rep == "linop":
         raise Reject("numpy backend on a LinearOperator")
     if bres == "SCIPY":
@@ -997,6 +1063,8 @@ def run_eig_partial(case):
     info = dict(backend_resolved=bres, rule=rule, rep=rep, kind=m["kind"], herm=False, fn=case["fn"])
     if case["fn"] == "eig":
         lk, vk = call_solver(lambda: qu.eig(A, k=k, **kw))
+    elif case["fn"] == "eigensystem_partial":
+        lk, vk = call_solver(lambda: qu.eigensystem_partial(A, k, False, **kw))
     else:
         lk, vk = call_solver(lambda: qu.eigvals(A, k=k, **kw)), None
     lk = np.asarray(lk)
@@ -1018,7 +1086,8 @@ def run_eig_partial(case):
         nn = np.sqrt(np.sum(np.abs(vk.astype(np.complex128)) ** 2, axis=0))
         if np.any(nn < 1e-6):
             raise Violation("zero-vector", **info)
-    return {"nt": True, "cls": ["res=" + bres, "rule=" + rule, "rep=" + rep, "kind=" + m["kind"], "fn=" + case["fn"]], "err": err}
+    return {"nt": True, "cls": ["res=" + bres, "rule=" + rule + ("(sigma only)" if which == "sigma" else ""), "rep=" + rep, "kind=" + m["kind"],
+                                "fn=" + case["fn"]] + (target_cls(case, sigma) if sigma is not None else []), "err": err}
 
 
 # ---------------------------------------------------------------------------
